@@ -133,6 +133,36 @@ CHECKS = {
         "DESIGN.md section 8, C13",
         "Only Exception subclasses are raised by the faulty processor.",
     ),
+    "C10": (
+        "exploration",
+        "runtime monitoring: differential map vs per-combination single runs on the real runner under controlled completion orders; identity probes for clone; RefEval third voice",
+        "runner.map and map_over nodes (renamed, nested in one another, in gated graphs whose items take different branches) over "
+        "zip/product combinations with lengths 0-4, failing items, all max_concurrency values and adversarial completion orders; "
+        "each result / list entry is compared with an independent single run on that combination, placeholders and first-failing-"
+        "item errors included; clone settings are observed through object identity inside the item functions.",
+        "DESIGN.md section 8, C10",
+        "Combination order is computed independently (zip position-wise, product row-major).",
+    ),
+    "C15": (
+        "exploration",
+        "runtime monitoring: adversarial controlled scheduler (release only at exact event-loop quiescence) + in-flight counter maintained inside instrumented node bodies; logical deadlock detection",
+        "Wide/nested/mapped programs with coroutine, async-generator and sync bodies run under max_concurrency 1..4 while the "
+        "scheduler keeps as many bodies open as the framework allows (FIFO/LIFO/random release); the in-flight counter must never "
+        "exceed k, the call must finish (quiescent + nothing parked + unfinished = deadlock), and the result must equal the "
+        "unlimited run.",
+        "DESIGN.md section 8, C15",
+        "Counts function-node bodies; quiescence read from the loop's ready queue.",
+    ),
+    "C16": (
+        "exploration",
+        "runtime monitoring: call-log scope oracle (entry nodes and spec-level descendants) and result-key oracle (declared, selected, no sentinel/internal keys) over generated configurations and result kinds",
+        "Program families x entry-point sets x graph/run-time/nested selections x on_missing modes, fault-free and failing "
+        "(collected) runs, cached nodes and gates with emits run twice, graphs derived after use: every invocation must be an entry "
+        "node or downstream of one; every returned key must be a declared data output inside the effective selection; on_missing "
+        "policy observed through warnings/ValueError.",
+        "DESIGN.md section 8, C16",
+        "Descendants are computed on the spec, not on the library's graph.",
+    ),
 }
 
 NOT_YET = {}
